@@ -59,7 +59,13 @@ def main():
             return 3
         # demo on the clean tree first
         shutil.copy(demo, os.path.join(wt, "tests", "zz_seed_demo.rs"))
-        rc_clean, out_clean = run(["cargo", "test", "--offline", "--test", "zz_seed_demo"] + FEATS, wt)
+        demo_cmd = ["cargo", "test", "--offline", "--test", "zz_seed_demo"] + FEATS
+        if os.environ.get("SEED_MIRI") == "1":
+            # memory-safety seeds: the demonstration is judged by Miri (Tree Borrows), not by values
+            demo_cmd = ["cargo", "+nightly", "miri", "test", "--offline", "--test", "zz_seed_demo"] + FEATS
+            os.environ["MIRIFLAGS"] = "-Zmiri-tree-borrows"
+            report["demo_runner"] = "cargo +nightly miri test (MIRIFLAGS=-Zmiri-tree-borrows)"
+        rc_clean, out_clean = run(demo_cmd, wt)
         report["demo_clean_tree"] = {"exit": rc_clean, "tests": tests_summary(out_clean)}
         run(["git", "apply", patch], wt)
         rc_b, out_b = run(["cargo", "build", "--offline"] + FEATS, wt)
@@ -68,7 +74,7 @@ def main():
         rc_t, out_t = run(["cargo", "test", "--workspace", "--no-fail-fast", "--offline"], wt)
         report["baseline_with_patch"] = {"exit": rc_t, "tests": tests_summary(out_t)}
         shutil.copy(demo, os.path.join(wt, "tests", "zz_seed_demo.rs"))
-        rc_m, out_m = run(["cargo", "test", "--offline", "--test", "zz_seed_demo"] + FEATS, wt)
+        rc_m, out_m = run(demo_cmd, wt)
         report["demo_with_patch"] = {"exit": rc_m, "tests": tests_summary(out_m)}
         ok = (rc_clean == 0 and rc_b == 0 and rc_t == 0 and report["baseline_with_patch"]["tests"][1] == 0
               and report["baseline_with_patch"]["tests"][0] >= 256 and rc_m != 0)
@@ -100,7 +106,7 @@ def main():
             "files": meta_in.get("files", []),
             "author": "independent sub-agent given only the property text and a scratch worktree",
             "confirmed_by_me": {
-                "how": "fresh scratch worktree of /repo HEAD under /tmp (removed afterwards): demo on clean tree, build with features, baseline suite with patch, demo with patch",
+                "how": "fresh scratch worktree of /repo HEAD under /tmp (removed afterwards): demo on clean tree, build with features, baseline suite with patch, demo with patch" + ("; demo run under " + report["demo_runner"] if report.get("demo_runner") else ""),
                 "demo_clean_tree": report["demo_clean_tree"],
                 "build_with_features_exit": report["build_with_features"],
                 "baseline_with_patch": report["baseline_with_patch"],
